@@ -140,7 +140,71 @@ func (x *c14Ctx) checkIDToken(where, tok, accessToken, code string, refresh bool
 	}
 }
 
+// c14Lifespans: per-client ID-token lifetimes. Every ID token expires within the lifetime configured for the grant that
+// minted it (implicit / hybrid at the authorization endpoint, authorization_code at the code exchange, refresh_token on
+// refresh), whatever was minted earlier for the same authorization, on the reference store and on a copying one.
+func c14Lifespans(c *run.Ctx) {
+	if !c.Mine(7) && c.NShards > 7 {
+		return
+	}
+	d := func(x time.Duration) *time.Duration { return &x }
+	lives := map[string]time.Duration{"authorize": 2 * time.Hour, "authorization_code": 10 * time.Minute, "refresh_token": 5 * time.Minute}
+	for _, db := range []bool{false, true} {
+		for _, rt := range []string{"code", "code id_token", "code id_token token", "code token"} {
+			for _, wait := range []time.Duration{0, 3 * time.Minute} {
+				w := world.New(world.Opts{Mode: world.Mode{DB: db}})
+				ls := &fosite.ClientLifespanConfig{ImplicitGrantIDTokenLifespan: d(lives["authorize"]), AuthorizationCodeGrantIDTokenLifespan: d(lives["authorization_code"]),
+					RefreshTokenGrantIDTokenLifespan: d(lives["refresh_token"])}
+				w.AddClient(world.ClientSpec{ID: "lsx", Kind: "lifespan", Secret: "slsx", RedirectURIs: []string{"https://lsx.example/cb"}, GrantTypes: world.AllGrants, ResponseTypes: world.AllResponseTypes,
+					Scopes: []string{"openid", "offline", "fosite"}, Lifespans: ls})
+				a := world.Basic("lsx", "slsx")
+				var hist []string
+				judge := func(where, grant, tok string) {
+					if tok == "" {
+						return
+					}
+					_, cl, okj := world.DecodeJWT(tok)
+					expF, ok := cl["exp"].(float64)
+					if !okj || !ok {
+						return
+					}
+					life := time.Unix(int64(expF), 0).Sub(time.Now())
+					hist = append(hist, fmt.Sprintf("%s: ID token expires in %s (configured for %s: %s)", where, life, grant, lives[grant]))
+					c.Case(fmt.Sprintf("id-token-lifespan store-copying=%v rt=%q %s within=%v", db, rt, where, life <= lives[grant]))
+					c.Count("c14_lifespan_tokens_checked", 1)
+					if life > lives[grant] || life <= 0 {
+						c.Violate(run.Violation{Kind: "id-token-exp", Key: fmt.Sprintf("id-token-exp per-client-lifespan %s rt=%s", where, setKey(rt)),
+							Detail: fmt.Sprintf("the ID token minted at %s lives %s, the client's lifetime for %s ID tokens is %s", where, life, grant, lives[grant]), History: append([]string(nil), hist...)})
+					}
+				}
+				az := w.Authorize(url.Values{"client_id": {"lsx"}, "response_type": {rt}, "scope": {"openid offline"}, "state": {"state-0123456789"}, "nonce": {"nonce-0123456789"}, "redirect_uri": {"https://lsx.example/cb"}}, world.Consent{})
+				if az.Err != nil {
+					continue
+				}
+				judge("authorization-endpoint", "authorize", az.Params.Get("id_token"))
+				if wait > 0 {
+					world.Sleep(wait)
+					hist = append(hist, wait.String()+" pass")
+				}
+				out := w.Token(url.Values{"grant_type": {"authorization_code"}, "code": {az.Params.Get("code")}, "redirect_uri": {"https://lsx.example/cb"}}, a)
+				if out.Err != nil {
+					c.Count("c14_lifespan_code_exchange_refused", 1)
+					continue
+				}
+				judge("code-exchange", "authorization_code", out.S("id_token"))
+				if rtok := out.S("refresh_token"); rtok != "" {
+					rf := w.Token(url.Values{"grant_type": {"refresh_token"}, "refresh_token": {rtok}}, a)
+					if rf.Err == nil {
+						judge("refresh", "refresh_token", rf.S("id_token"))
+					}
+				}
+			}
+		}
+	}
+}
+
 func C14(c *run.Ctx) {
+	c14Lifespans(c)
 	c.Need("c14_id_tokens_checked", 1)
 	c.Need("c14_unsatisfied_refused", 1)
 	keys := c14Keys()
